@@ -156,6 +156,27 @@ class RealGdb(Stage):
         return res
 
 
+class Scenarios(Stage):
+    """short scripted situations the free-running machine reaches too rarely to be relied on (off-thread-percent, reuse-other-thread, selection-survives-destroy), each with drawn details, run
+    through the same executor and judged by the same model"""
+    name = 'scenarios'
+    KINDS = ['off-thread-percent', 'reuse-other-thread', 'selection-survives-destroy']
+
+    def examples(self, tier):
+        return 80 if tier == 'quick' else 14 * 400
+
+    def gen(self, d, tier):
+        from .. import runner
+        return pm.scenario_case(d, d.choice(self.KINDS), WEIGHTS)
+
+    def execute(self, case):
+        res = pm.replay(case, False, True)
+        res.nontrivial = True
+        res.label('scenario:' + case.get('scenario', '?'))
+        res.sample = dict(scenario=case.get('scenario'), ops=[[o[0], o[1], o[2] if o[0] != 'msg' else o[3]['target_iface'] + '.' + o[3]['name']] for o in case['ops'][:14]])
+        return res
+
+
 class C15(Prop):
     id = 'C15'
     rule = ('Hypothesis rule-based machine on the real Plugin + Controller + ConnectionManager over a gdb stand-in: rules = a generated '
@@ -167,7 +188,7 @@ class C15(Prop):
             'destroy followed by reuse of the address, or a destroy of a never-seen address; distinct by SHA-1 of the op list. thousand-connections: 1001..1040 connections at 1-3 addresses destroyed and handed out again while one early connection stays open. After every destroy the list of connections must still mark the connection the user selected.')
     assumptions = ['fakegdb stand-in for the gdb module (cross-checked against real gdb 13 on a generated C mock: stage real-gdb here and in C09)',
                    'address reuse is modelled as a new wl_connection object with the same numeric address']
-    stages = [Machine(), ThousandConnections(), RealGdb()]
+    stages = [Machine(), Scenarios(), ThousandConnections(), RealGdb()]
 
 
 gdbsim.install()
